@@ -46,7 +46,7 @@ type Obs struct {
 }
 
 var obsNames = []string{"m.String", "m.WriteTo", "f.LLString", "b.LLString", "inst.LLString", "v.Type", "v.Ident", "v.String",
-	"inst.Operands", "term.Succs", "g.LLString", "term.LLString", "term.Operands", "f.Type+Ident", "param.String"}
+	"inst.Operands", "term.Succs", "g.LLString", "term.LLString", "term.Operands", "f.Type+Ident", "param.String", "operands.Ident+String+Type", "g.Type+Ident+String"}
 
 func (o Obs) String() string { return fmt.Sprintf("%s(%d,%d,%d)", obsNames[o.K%len(obsNames)], o.A, o.B, o.C) }
 
@@ -57,7 +57,7 @@ type genParams struct {
 }
 
 const (
-	nInstKinds = 31
+	nInstKinds = 32
 	nTermKinds = 6
 )
 
@@ -81,14 +81,16 @@ func genProgram(r *rng, p genParams) *Prog {
 	}
 	for len(pr.Steps) < p.Steps {
 		switch x := r.intn(100); {
-		case x < 2:
+		case x < 1:
+			add(Step{Op: "setfield", K: r.intn(6), A: sel(), B: sel()})
+		case x < 3:
 			if r.chance(1, 2) {
 				add(Step{Op: "alias", K: r.intn(2), A: sel(), Name: name()})
 			} else {
 				add(Step{Op: "typedef", K: r.intn(3), A: sel(), Name: name()})
 			}
 		case x < 6:
-			add(Step{Op: "global", K: r.intn(5), A: sel(), Name: name()})
+			add(Step{Op: "global", K: []int{0, 1, 2, 3, 4, 6}[r.intn(6)], A: sel(), Name: name()})
 		case x < 10:
 			add(Step{Op: "func", K: r.intn(5), A: r.intn(4), B: sel(), C: sel(), Name: name()})
 		case x < 20:
@@ -239,6 +241,9 @@ func (mc *machine) konst(t types.Type, sel int) value.Value {
 	case t.Equal(tI32):
 		return constant.NewInt(tI32, int64(sel%1000)-3)
 	case t.Equal(tI64):
+		if len(mc.globals) > 0 && sel%5 == 1 {
+			return constant.NewPtrToInt(mc.globals[sel%len(mc.globals)], tI64)
+		}
 		return constant.NewInt(tI64, int64(sel)*7919)
 	case t.Equal(tF64):
 		return constant.NewFloat(tF64, float64(sel%64)/4)
@@ -250,7 +255,17 @@ func (mc *machine) konst(t types.Type, sel int) value.Value {
 			}
 		}
 		if len(gs) > 0 && sel%3 != 0 {
-			return gs[sel%len(gs)]
+			g := gs[sel%len(gs)]
+			switch sel % 4 {
+			case 1:
+				// constant expression whose text contains the global's identifier
+				return constant.NewGetElementPtr(tI32, g, constant.NewInt(tI64, int64(sel%5)))
+			case 2:
+				if len(mc.globals) > 0 {
+					return constant.NewBitCast(mc.globals[sel%len(mc.globals)], tP32)
+				}
+			}
+			return g
 		}
 		return constant.NewNull(tP32)
 	case t.Equal(tP8):
@@ -435,6 +450,17 @@ func (mc *machine) newInst(f *mfunc, k, c, d int) ir.Instruction {
 		x := mc.pick(f, tI32, c)
 		in = ir.NewInstFreeze(x)
 		mc.use(in, x)
+	case 31:
+		// The address of a block of another (or the same) function as an operand.
+		of := mc.fn(c)
+		ob := mc.block(of, d)
+		if ob == nil {
+			in = ir.NewAlloca(tI8)
+		} else {
+			in = ir.NewPtrToInt(constant.NewBlockAddress(of.f, ob), tI64)
+			mc.use(in, ob)
+			mc.probes["blockaddress operand"]++
+		}
 	}
 	return in
 }
@@ -469,7 +495,14 @@ func (mc *machine) exec1(s Step) bool {
 	case "global":
 		name := mc.uniq(mc.gnames, s.Name)
 		var g *ir.Global
-		switch s.K % 6 {
+		switch s.K % 7 {
+		case 6:
+			if len(mc.globals) == 0 {
+				g = mc.m.NewGlobalDef(name, constant.NewInt(tI8, 1))
+			} else {
+				src := mc.globals[s.A%len(mc.globals)]
+				g = mc.m.NewGlobalDef(name, constant.NewBitCast(src, tP8))
+			}
 		case 0:
 			g = mc.m.NewGlobal(name, tI32)
 			g.Linkage = enum.LinkageExternal
@@ -539,6 +572,43 @@ func (mc *machine) exec1(s Step) bool {
 		if s.K%3 != 2 {
 			g := mc.m.NewGlobalDef(mc.uniq(mc.gnames, s.Name), constant.NewZeroInitializer(td))
 			mc.globals = append(mc.globals, g)
+		}
+		return true
+	case "setfield":
+		switch s.K % 6 {
+		case 0:
+			if len(mc.globals) == 0 {
+				return false
+			}
+			mc.globals[s.A%len(mc.globals)].AddrSpace = types.AddrSpace(s.B % 3)
+		case 1:
+			f := mc.fn(s.A)
+			if f == nil {
+				return false
+			}
+			f.f.AddrSpace = types.AddrSpace(s.B % 3)
+		case 2:
+			if len(mc.globals) == 0 {
+				return false
+			}
+			mc.globals[s.A%len(mc.globals)].Linkage = []enum.Linkage{enum.LinkageNone, enum.LinkageInternal, enum.LinkagePrivate, enum.LinkageWeak}[s.B%4]
+		case 3:
+			if len(mc.globals) == 0 {
+				return false
+			}
+			g := mc.globals[s.A%len(mc.globals)]
+			g.Immutable = !g.Immutable
+		case 4:
+			f := mc.fn(s.A)
+			if f == nil {
+				return false
+			}
+			f.f.Linkage = []enum.Linkage{enum.LinkageNone, enum.LinkageInternal, enum.LinkageLinkOnceODR}[s.B%3]
+		case 5:
+			if len(mc.globals) == 0 {
+				return false
+			}
+			mc.globals[s.A%len(mc.globals)].Align = ir.Align(1 << uint(s.B%5))
 		}
 		return true
 	case "func":
@@ -960,6 +1030,39 @@ func (mc *machine) observe(o Obs) (applied bool, bad string) {
 		p := f.f.Params[o.B%len(f.f.Params)]
 		_ = p.String()
 		_ = p.Type()
+		return true, ""
+	case 15:
+		f := mc.fn(o.A)
+		b := mc.block(f, o.B)
+		if b == nil {
+			return false, ""
+		}
+		var ops []*value.Value
+		if len(b.Insts) > 0 {
+			ops = b.Insts[o.C%len(b.Insts)].Operands()
+		} else if b.Term != nil {
+			ops = b.Term.Operands()
+		}
+		for _, op := range ops {
+			if *op != nil {
+				_ = (*op).Ident()
+				_ = (*op).String()
+				_ = (*op).Type()
+			}
+		}
+		return true, ""
+	case 16:
+		if len(mc.globals) == 0 {
+			return false, ""
+		}
+		g := mc.globals[o.A%len(mc.globals)]
+		_ = g.Type()
+		_ = g.Ident()
+		_ = g.String()
+		if g.Init != nil {
+			_ = g.Init.Ident()
+			_ = g.Init.String()
+		}
 		return true, ""
 	}
 	return false, ""
